@@ -5,7 +5,7 @@
     statement renders the property, and how the model is tied to /repo, is in DESIGN.md. *)
 From CB Require Import ProofLib Spec MonitorSound Results.
 From CB Require Import Inv_combine Inv_share.
-From CB Require Import Chain Programs.
+From CB Require Import Chain Programs Tree TreePrograms.
 
 Theorem C04_map (f : val -> val) p (c : cfg (map_op f)) :
   std p -> reach p g_std c -> forall i, sub_once i (trace c) /\ talkback_only_live i (trace c) /\ stop_once i (trace c) /\ no_pull_outside i (trace c).
@@ -71,3 +71,17 @@ Theorem C04_pipeline it stages b N :
             /\ no_pull_outside j (ntrace n).
 Proof. exact (fun Hok Hr i n Hn => pk_c04 (proj1 (@pipeline_protocol it stages b N Hok Hr i n Hn))). Qed.
 Print Assumptions C04_pipeline.
+
+(** ** programs: every component of every TREE of from_iter / interval leaves and map / filter / scan /
+    take / skip / merge! / concat! nodes (for_each at roots), wired child to parent port, in every
+    reachable state, whatever the external peers do (composition theorem for trees, Tree.v/TreePrograms.v;
+    combine! is excluded: its broadcast to ended members, KF2, breaks its children's assumptions) *)
+Theorem C04_program (ts : list tnode) (es : list edge) (N : tnet) :
+  Forall tnode_ok ts -> edges_okb es (length ts) = true ->
+  (forall e, In e es -> nth_error ts (e_child e) <> Some TSink) ->
+  tnet_reach (wiring_of es) (prog_net ts) N ->
+  forall i n, nth_error (tnodes N) i = Some n ->
+  forall j, sub_once j (ntrace n) /\ talkback_only_live j (ntrace n) /\ stop_once j (ntrace n)
+            /\ no_pull_outside j (ntrace n).
+Proof. exact (fun Hok He Hs Hr i n Hn => pk_c04 (proj1 (@program_protocol ts es N Hok He Hs Hr i n Hn))). Qed.
+Print Assumptions C04_program.
